@@ -317,34 +317,28 @@ func checkC16(w *World, r *Report) {
 		for _, typ := range []string{"Rb", "Urb", "Drb", "Lb"} {
 			m := w.Method("schema", typ, "Validate")
 			fd, _ := w.FuncDecl(m)
-			v := paramObj(p, fd, 0)
 			okR := false
-			if len(fd.Body.List) == 2 {
-				if is, isIf := fd.Body.List[0].(*ast.IfStmt); isIf {
-					var parts []string
-					var fl func(e ast.Expr)
-					fl = func(e ast.Expr) {
-						e = ast.Unparen(e)
-						if be, ok := e.(*ast.BinaryExpr); ok && be.Op == token.LOR {
-							fl(be.X)
-							fl(be.Y)
-							return
-						}
-						if be, ok := e.(*ast.BinaryExpr); ok && objOfIdent(p, be.X) == v {
-							if f := fieldOfSel(p, be.Y); f != nil {
-								parts = append(parts, be.Op.String()+f.Name())
-							}
-						}
-					}
-					fl(is.Cond)
-					sort.Strings(parts)
-					rets := returnsIn(is.Body)
-					if strings.Join(parts, ",") == "<Start,>End" && len(rets) == 1 && !isNilIdent(p, rets[0].Results[0]) {
-						if last, isL := fd.Body.List[1].(*ast.ReturnStmt); isL && isNilIdent(p, last.Results[0]) {
-							okR = true
-						}
+			if f := w.SSAFunc(m); f != nil && len(f.Params) == 2 && len(ssaLoops(f)) == 0 {
+				sym := NewSym(w)
+				v := ssa.Value(f.Params[1])
+				accept := pcZ
+				for _, row := range sym.retTable(f, 0) {
+					if isNilConst(row.val) {
+						accept = pcOrF(accept, row.cond)
 					}
 				}
+				okR = pcCompare(accept, func(a *pcAtom) string {
+					if a.op != token.LSS || a.x == nil {
+						return ""
+					}
+					if a.x == v && loadedFieldName(a.y) == "Start" {
+						return "below"
+					}
+					if a.y == v && loadedFieldName(a.x) == "End" {
+						return "above"
+					}
+					return ""
+				}, func(env map[string]bool) bool { return !env["below"] && !env["above"] }) == ""
 			}
 			r.Check(okR, "R16.5", typ+".Validate", fd.Pos(), "v < Start || v > End ⇒ error", typ+" boundary test is not 'start ≤ v ≤ end' (a bound is off by one or inverted)")
 		}
